@@ -209,6 +209,7 @@ pub fn run(args: &Args) {
         match i % 5 {
             0 | 1 | 2 => runtime_case(&mut rep, &ev, &strict, &mut rng, i),
             3 => parse_case(&mut rep, &mut rng),
+            _ if i % 10 == 9 => never_failing_case(&mut rep, &mut rng),
             _ => nonfinite_case(&mut rep, &mut rng),
         }
     }
@@ -337,7 +338,15 @@ fn parse_case(rep: &mut Report, rng: &mut Rng) {
             }
         }
         2 => format!("{}{}", prefix(rng), char_soup(rng, 12)),
-        3 => refimpl::sentence::long_token_case(rng),
+        3 => {
+            if rng.chance(1, 2) {
+                refimpl::sentence::long_token_case(rng)
+            } else if rng.chance(1, 2) {
+                refimpl::sentence::malformed_literal_case(rng)
+            } else {
+                refimpl::sentence::surrogate_case(rng)
+            }
+        }
         4 => format!("{}{}", prefix(rng), refimpl::sentence::lookalike_case(rng)),
         _ => format!("{}\n{}", s, char_soup(rng, 6)),
     };
@@ -369,6 +378,27 @@ fn parse_case(rep: &mut Report, rng: &mut Rng) {
             }
         }
         Err(p) => rep.violation(&format!("C12/panic/{}", panic_site(&p)), json!({"expression": candidate, "panic": p})),
+    }
+}
+
+/// Calls whose contract is "a value or null, never a failure": whatever text `to_number` is given.
+fn never_failing_case(rep: &mut Report, rng: &mut Rng) {
+    const TEXTS: [&str; 30] = [
+        "2021-01-01", "1.2.3", "007", "1.", "-", "1e999", "-1e999", "1e", "1e+", "--1", "+1", ".5", "0x10", "1_000", "1,5", "12abc", "١٢", "1e-999", "00", "-0", "-01", "1.0.0", "1..2", "1e1e1",
+        "9999999999999999999999999999", "NaN", "Infinity", "-Infinity", " 1", "1 ",
+    ];
+    let t = TEXTS[rng.below(TEXTS.len())];
+    let doc = json!({"d": t, "ds": [t, "1", t]});
+    for text in ["to_number(d)", "ds[*].to_number(@)", "map(&to_number(@), ds)", "to_number(d) || 'fallback'", "ds[?to_number(@) == `1`]"] {
+        rep.evaluations += 1;
+        match guarded(|| jmespath::compile(text).and_then(|e| e.search(rcvar_of(&doc)))) {
+            Ok(Ok(_)) => rep.count("never_failing_call_did_not_fail"),
+            Ok(Err(e)) => rep.violation(
+                &format!("C12/{}-class-error-from-a-call-that-cannot-fail", err_class(&e)),
+                json!({"expression": text, "document": doc, "error": err_json(&e)}),
+            ),
+            Err(p) => rep.violation(&format!("C12/panic/{}", panic_site(&p)), json!({"expression": text, "document": doc, "panic": p})),
+        }
     }
 }
 
